@@ -72,6 +72,20 @@ def generate(R: Draw, tier: str) -> dict:
     T = P.tokens_of(doc["c"], rs.leaf_types)
     dd = S.depth_table(T)
     kind = R.weighted([("other", 6), ("same", 2), ("reinsert", 2)])
+    if focus is None and R.bool(0.12):
+        # a closed inline slice dropped INSIDE a text node (both halves of the split text stay): what is valid depends
+        # on the whole resulting child sequence, text merging included
+        mids = [p for p in range(1, len(T)) if T[p - 1][0] == "char" and T[p][0] == "char"]
+        src2 = g.doc(R, "small")
+        TS2 = P.tokens_of(src2["c"], rs.leaf_types)
+        inl = [p for p in range(len(TS2)) if TS2[p][0] in ("char", "leaf") and rs.inline.get(TS2[p][1] if TS2[p][0] == "leaf" else "text")]
+        if mids and inl:
+            a = R.choice(mids)
+            sa = R.choice(inl)
+            sb = sa + 1
+            while sb < len(TS2) and R.bool(0.4) and TS2[sb][0] in ("char", "leaf") and S.depth_table(TS2)[sb] == S.depth_table(TS2)[sa]:
+                sb += 1
+            return {"schema": sref, "doc": doc, "src": src2, "from": a, "to": a if R.bool(0.7) else min(len(T), a + 1), "sa": sa, "sb": sb}
     if focus is not None and R.bool(0.7):
         # delete (or re-insert an empty cut over) a stretch inside the focus range, seams inside the marked pieces
         a = R.int(focus["from"], focus["to"])
